@@ -126,6 +126,9 @@ fn sig_menu(k: usize) -> Option<jmespath::functions::Signature> {
             vec![A::Union(vec![A::TypedArray(Box::new(A::Number)), A::TypedArray(Box::new(A::String))])],
             None,
         )),
+        7 => Some(Signature::new(vec![A::String], Some(A::String))),
+        8 => Some(Signature::new(vec![], Some(A::Number))),
+        9 => Some(Signature::new(vec![A::Number], Some(A::Union(vec![A::Number, A::Null])))),
         _ => Some(Signature::new(vec![], None)),
     }
 }
